@@ -631,6 +631,14 @@ impl Ctx {
                                     }
                                 }
                                 if let Some(f) = Ctx::absorb(&mut stats, known, &|| make(i), verdict) {
+                                    if std::env::var("VERIF_KEEP_GOING").is_ok() {
+                                        // exploration aid: list every failing case, do not stop
+                                        eprintln!("FAILCASE {} {} || {}", i, f.signature, f.detail.lines().take(6).collect::<Vec<_>>().join(" | "));
+                                        if fails.is_empty() {
+                                            fails.push((i, f));
+                                        }
+                                        continue;
+                                    }
                                     fails.push((i, f));
                                     stop.store(true, Ordering::Relaxed);
                                     break 'outer;
@@ -959,4 +967,28 @@ pub fn result_snapshot(r: &Result<Vec<rssl::CompiledPipeline>, String>) -> Resul
 /// Is this diagnostic produced by a back end (exporter) rather than the shared front end?
 pub fn is_backend_error(msg: &str) -> bool {
     msg.contains("hlsl generate:") || msg.contains("hlsl format:") || msg.contains("metal generate:") || msg.contains("metal format:")
+}
+
+/// Front end only: source text -> typed IR. Outer Err = panic, inner Err = rendered diagnostic.
+pub fn type_check_text(src: &str) -> Result<Result<rssl::ir::Module, String>, String> {
+    let src = src.to_string();
+    guard(move || {
+        use rssl::text::CompileErrorExt;
+        let mut sm = rssl::text::SourceManager::new();
+        let mut files = MemFiles(vec![("main.rssl".to_string(), src)]);
+        let defines = [("__HLSL_VERSION", "2021"), ("RSSL_TARGET_HLSL", "1"), ("RSSL_TARGET_MSL", "0")];
+        let tokens = match rssl::preprocess::preprocess("main.rssl", &mut sm, &mut files, &defines) {
+            Ok(t) => t,
+            Err(e) => return Err(format!("{}", e.display(&sm))),
+        };
+        let tokens = rssl::preprocess::prepare_tokens(&tokens);
+        let ast = match rssl::parser::parse(&tokens) {
+            Ok(a) => a,
+            Err(e) => return Err(format!("{}", e.display(&sm))),
+        };
+        match rssl::typer::type_check(&ast) {
+            Ok(m) => Ok(m),
+            Err(e) => Err(format!("{}", e.display(&sm))),
+        }
+    })
 }
